@@ -19,8 +19,6 @@ OPEN (false of the code as it is; see known_findings.json):
   for the stubs of `render_body` itself only (`body_stubs_pass_locals`); below it the flag follows the `_Identifiers`
   on top of the identifier stack (modelled in `Scopes.lean`, compared on every run, not claimed);
 * `reserved_rejected` for module-level `<%! %>` names and `<%namespace name=…>` names – F-C04-1b;
-* "a rewritten `% for` finds its `__M_loop`" without the hypothesis of `for_rewrite_finds_loop_partial` – F-C04-9 (the suite
-  mentions `loop` only inside a nested `<%def>` / `<%call>` body);
 * "`loop` is reserved whenever the loop context is enabled" – F-C04-2: `Cfg.reservedLoop` (from `Template(enable_loop=…)`)
   and `Cfg.enableLoop` (also set by `<%page enable_loop>`) are separate inputs of the model; no theorem equates them;
 * F12b, F12c, F12d (comprehension variables, default-argument / class-body reads, match captures and `async def`
@@ -185,10 +183,9 @@ theorem for_rewrite_only_when_enabled (c : Cfg) (m : Bool) (h : forRewritten c m
 
 example : forRewritten {} true = true ∧ forRewritten { enableLoop := false } true = false := by decide
 
-/-- a rewritten `% for` finds its `__M_loop` when the function it is emitted into, or a function enclosing it, declares
-`loop` itself (i.e. reads `loop` outside nested `<%def>`s / `<%call>` bodies) – and there is never an error while the
-loop context is disabled -/
-theorem for_rewrite_finds_loop_partial (c : Cfg) (loopFors : List Nat) (chain : List Frame) (body : Body)
+/-- a rewritten `% for` finds its `__M_loop` when the function it is emitted into, or a function enclosing it (closure),
+declares `loop`; and there is never an error while the loop context is disabled -/
+theorem for_rewrite_finds_loop_of_enclosing (c : Cfg) (loopFors : List Nat) (chain : List Frame) (body : Body)
     (h : c.enableLoop = false ∨ ∃ f ∈ chain, f.ccall = false ∧ hasLoop c f.ids = true) :
     forErrors c loopFors chain body = [] := by
   have hf : Generated.Names.forRewriteOnlyWhenEnabled = true := by decide
@@ -199,10 +196,43 @@ theorem for_rewrite_finds_loop_partial (c : Cfg) (loopFors : List Nat) (chain : 
       exact ⟨f, hfm, by simp [hcc, hl]⟩
     simp [forErrors, this]
 
-/-- F-C04-9: `% for i in x:` / `<%call expr="w()">${loop}</%call>` / `% endfor` – the suite mentions `loop` only inside
-the `<%call>` body: the `% for` (tag 1) is rewritten to use `__M_loop`, but `render_body` reads no `loop` of its own and
-never creates it -/
-theorem for_rewrite_finds_loop_counterexample :
+/-- Every rewritten `% for` finds its `__M_loop` (repair bca4969): `_Identifiers.visitControlLine` counts a `% for` whose
+line or suite mentions `loop` – at any depth, also only inside a nested `<%def>` / `<%call>` body – as a reader of `loop`
+(regenerated flag `forLineReadsLoop`, a named obligation; hypothesis `hread` is that fact for the scope at hand).  Then in
+every scope that does not inherit `loop` from an enclosing function and binds no `loop` itself (which would be a
+`NameConflictError`), the function declares `loop = __M_loop = runtime.LoopStack()`, so no rewritten line is without it. -/
+theorem for_rewrite_finds_loop (c : Cfg) (hl : c.enableLoop = true) (i0 : Ids) (root : Bool) (b : Body) (loopFors : List Nat)
+    (f : Frame) (rest : List Frame) (hf : f.ids = visit i0 root b) (hcc : f.ccall = false)
+    (hread : (∃ t ∈ ownLeafTags b, t ∈ loopFors) → loopName ∈ readsOf b)
+    (hnd : loopName ∉ i0.declared) (hna : loopName ∉ f.ids.argDecl) (hnl : loopName ∉ f.ids.locDecl) :
+    Generated.Names.forLineReadsLoop = true ∧ forErrors c loopFors (f :: rest) b = [] := by
+  refine ⟨by decide, ?_⟩
+  by_cases hex : ∃ t ∈ ownLeafTags b, t ∈ loopFors
+  · have hr := visit_reads b i0 root (readsOf_sub_through b _ (hread hex)) (by decide)
+    have hu : loopName ∈ f.ids.undeclared := by
+      rcases hr with h | h | h
+      · exact absurd h hnd
+      · exact absurd (hf ▸ h) hnl
+      · exact hf ▸ h
+    have hh : hasLoop c f.ids = true := by
+      simp only [hasLoop, hl, Bool.true_and, decide_eq_true_eq]
+      exact mem_toWriteRaw.mpr ⟨Or.inl hu, hna, hnl⟩
+    exact for_rewrite_finds_loop_of_enclosing c loopFors (f :: rest) b (Or.inr ⟨f, List.mem_cons_self, hcc, hh⟩)
+  · simp only [forErrors, List.filter_eq_nil_iff]
+    intro t ht
+    have : t ∉ loopFors := fun h' => hex ⟨t, ht, h'⟩
+    simp [this]
+
+/-- the hypotheses are satisfiable: `% for i in x:` / `<%call expr="w()">${loop}</%call>` / `% endfor`, the `% for` leaf
+carrying `loop` among its undeclared identifiers as the repaired visitor records it -/
+example : forErrors {} [1] (bodyScope {} (.leaf 1 ["i".toList] ["x".toList, loopName]
+    (.call 2 [] [] ["w".toList] (.leaf 3 [] [loopName] .nil) .nil))).frames
+    (.leaf 1 ["i".toList] ["x".toList, loopName] (.call 2 [] [] ["w".toList] (.leaf 3 [] [loopName] .nil) .nil)) = [] := by decide
+
+/-- REGRESSION (the defect F-C04-9 before bca4969, kept as a model-level fact): were the `% for` leaf *not* counted as a
+reader of `loop` – the suite mentions `loop` only inside the `<%call>` body – the line (tag 1) would be rewritten to use
+`__M_loop` although `render_body` never creates it. -/
+theorem for_rewrite_without_loop_read_regression :
     let t : Body := .leaf 1 ["i".toList] ["x".toList] (.call 2 [] [] ["w".toList] (.leaf 3 [] [loopName] .nil) .nil)
     forErrors {} [1] (bodyScope {} t).frames t = [1] := by decide
 
